@@ -1164,16 +1164,20 @@ impl FatVolume {
         self.next_free_cluster =
             match self.find_next_free_cluster(block_cache, new_cluster, end_cluster) {
                 Ok(cluster) => Some(cluster),
-                Err(_) if new_cluster.0 > RESERVED_ENTRIES => {
+                Err(Error::NotEnoughSpace) if new_cluster.0 > RESERVED_ENTRIES => {
                     match self.find_next_free_cluster(
                         block_cache,
                         ClusterId(RESERVED_ENTRIES),
                         end_cluster,
                     ) {
                         Ok(cluster) => Some(cluster),
+                        // We just took the last free cluster. That's not an
+                        // error for this allocation, only for the next one.
+                        Err(Error::NotEnoughSpace) => None,
                         Err(e) => return Err(e),
                     }
                 }
+                Err(Error::NotEnoughSpace) => None,
                 Err(e) => return Err(e),
             };
         debug!("Next free cluster is {:?}", self.next_free_cluster);
